@@ -606,6 +606,13 @@ class ListenerItem(ListenerBase):
         )
 
         if remove:
+            if (name not in object.__dict__) and (
+                object.base_trait(name).type == "trait"
+            ):
+                # The value has not been created yet, so nothing is hooked up
+                # below it: do not run the default value machinery (user code)
+                # just to unhook nothing.
+                return None
             return next.unregister(getattr(object, name))
 
         if not self.deferred or name in object.__dict__:
